@@ -8,7 +8,7 @@ wave = sys.argv[1]
 head = subprocess.run("git -C /repo rev-parse --short HEAD", shell=True, text=True, capture_output=True).stdout.strip()
 for prop in sys.argv[2:]:
     for sub in ("a", "b"):
-        src = "/tmp/seedout/%s/%s" % (prop, sub)
+        src = "%s/%s/%s" % (os.environ.get("SEEDOUT", "/tmp/seedout"), prop, sub)
         if not os.path.exists(src + "/patch.diff"): print(prop, sub, "no patch"); continue
         existing = [int(d.split("-")[1]) for d in os.listdir(ROOT + "/seeded") if re.match(prop + r"-\d+$", d)]
         # skip if already imported
